@@ -49,7 +49,12 @@ pub fn run(args: &Args) {
         "(L (keyed 0) (el 112 (A) (C (dtext 1))))",
         "(L (el 100 (A) (C (dview 1 (alt (text 120)) (alt (el 98 (A) (C)))) (keyed 0) (dview 1 (alt (text 121)) (alt)))))",
     ];
-    for f in fam_k.iter().chain(fam_nh.iter()).chain(fam.iter()) {
+    let fam_ns: Vec<&str> = if args.extra.iter().any(|x| x == "--with-nossr") { vec![
+        "(L (el 100 (A) (C (nossr (el 103 (A) (C (dtext 0)))) (el 109 (A) (C (dtext 1))))))",
+        "(L (nossr (dtext 0) (text 97)) (el 109 (A (99 (d 0))) (C)))",
+        "(L (el 100 (A) (C (text 97) (nossr (dview 0 (alt (text 120)) (alt (el 98 (A) (C))))) (dtext 1))))",
+    ] } else { vec![] };
+    for f in fam_ns.iter().chain(fam_k.iter()).chain(fam_nh.iter()).chain(fam.iter()) {
         let Some(Sx::L(l)) = sx_parse(f) else { continue };
         let vds: Vec<VD> = l[1..].iter().map(|s| rd(s).unwrap()).collect();
         for (st, ws) in [(vec![0u32, 0], "0=1,1=1,0=2,1=2"), (vec![1, 1], "1=2,0=0,0=1,1=3"), (vec![3, 2], "0=3,0=4,1=5"), (vec![4, 1], "0=5,0=2,1=2,0=0")] { push(&vds, &st, ws); }
